@@ -152,6 +152,7 @@ class Runtime:
         self.ns = 0
         self.tls = threading.local()
         self.pending_new = []  # type: List[int]
+        self.alias = []  # type: List[Tuple[int, int]]   # (function whose body runs, member it was called as)
         self.fn_callable = {}  # type: Dict[int, Any]   # plain functions
         self.fn_name = {}  # type: Dict[int, str]
         self.fn_class = {}  # type: Dict[int, Any]
@@ -444,10 +445,19 @@ class Runtime:
         f, o, a = op["f"], op["o"], op["a"]
         extra = {"result": 1} if op.get("bad") else {}   # a keyword named like the postconditions' reserved name
         self.emit("call", f, o, a, 1 if extra else 0)
+        alias_of = self.prog["fn"][f - 1].get("alias_of", 0)
         try:
             callee = self.resolve(f, o, op.get("kw", 0))
             if self.prog["fn"][f - 1]["async"]:
                 result = self.sched.run_coro_inline(callee(self.arg(a), **extra))
+            elif alias_of:
+                # the member is a second name of another function (reset = __init__): the body that runs reports itself
+                # as the member that was called
+                self.alias.append((alias_of, f))
+                try:
+                    result = callee(self.arg(a), **extra)
+                finally:
+                    self.alias.pop()
             else:
                 result = callee(self.arg(a), **extra)
         except HarnessAbort:
@@ -687,6 +697,8 @@ class Runtime:
         raise exc
 
     def body(self, f: int, self_obj: Any, x: Any) -> Any:
+        if self.alias and self.alias[-1][0] == f:
+            f = self.alias[-1][1]
         fn, o, a, fid = self._body_common_in(f, self_obj, x)
         try:
             self._maybe_fault(fid)
